@@ -8,6 +8,7 @@ package main
 // cache and peer table unchanged.
 
 import (
+	"sort"
 	"sync/atomic"
 	"context"
 	"crypto/sha256"
@@ -115,7 +116,8 @@ func (s *services) fingerprint() string {
 	peers := s.gsp.Peers()
 	// the orphan buffer and what was forwarded are not part of the statement (a rejected vertex may
 	// trigger an asynchronous parent fetch whose result is parked)
-	return fmt.Sprint(len(snap.Vertices), len(snap.Edges), len(snap.Index), len(aw), len(peers))
+	sort.Strings(peers)
+	return fmt.Sprint(len(snap.Vertices), len(snap.Edges), len(snap.Index), len(aw), peers)
 }
 
 var byteShapes = []struct {
@@ -399,6 +401,65 @@ func init() {
 				shape := fmt.Sprintf("addr=%s digest=%s", ad.name, d.name)
 				s.call(c, "gossip.Announce", shape, func() error { _, e := s.gsp.Server().Announce(ctx, m); return e })
 				s.call(c, "gossip.Discover", shape, func() error { _, e := s.gsp.Server().Discover(ctx, m); return e })
+			}
+		}
+
+		// ---- correctly signed connection requests: URLs the dialer refuses and URLs it takes, from a stranger
+		// and from a peer already in the table. Every call under a watchdog, and after every call the peer
+		// table must still answer (a handler that returns early must not keep the table locked).
+		{
+			signed := func(w *wallet.Wallet, url string) *pb.ConnectionData {
+				now := uint64(time.Now().UnixNano())
+				d, sig := w.Sign(gossip.VerifConnectionMessage(w.Address(), url, now))
+				return roundTrip(&pb.ConnectionData{PublicAddress: w.Address(), Url: url, CreatedAt: now, Digest: d[:], Signature: sig}, &pb.ConnectionData{})
+			}
+			guarded := func(rpc, shape string, f func() error) bool {
+				done := make(chan struct{})
+				go func() { defer close(done); s.call(c, rpc, shape, f) }()
+				select {
+				case <-done:
+				case <-time.After(5 * time.Second):
+					c.Violate("C15", "request-never-returns:"+rpc, fmt.Sprintf("%s with %s did not return within 5 s", rpc, shape), map[string]interface{}{"section": "crash", "rpc": rpc, "shape": shape})
+					return false
+				}
+				probe := make(chan struct{})
+				go func() { defer close(probe); s.gsp.Peers() }()
+				select {
+				case <-probe:
+					return true
+				case <-time.After(5 * time.Second):
+					c.Violate("C15", "peer-table-locked-after:"+rpc, fmt.Sprintf("after %s with %s returned, the peer table no longer answers: every later gossip request hangs", rpc, shape), map[string]interface{}{"section": "crash", "rpc": rpc, "shape": shape})
+					return false
+				}
+			}
+			urls := []struct{ name, u string }{{"empty", ""}, {"nul-byte", "node\x00a:8080"}, {"bad-escape", "%zz"}, {"dialable", "127.0.0.1:1"}, {"dialable-2", "127.0.0.1:2"}}
+			alive := true
+			for _, rpc := range []string{"gossip.Discover", "gossip.Announce"} {
+				for _, known := range []bool{false, true} {
+					for _, u := range urls {
+						if !alive {
+							break
+						}
+						w := s.w.NewWallet()
+						if known { // registered first with a good URL, through the real handler
+							m := signed(w, "127.0.0.1:9")
+							alive = guarded("gossip.Announce", "validly-signed registration", func() error { _, e := s.gsp.Server().Announce(ctx, m); return e })
+							if !alive {
+								break
+							}
+						}
+						m := signed(w, u.u)
+						shape := fmt.Sprintf("validly-signed url=%s known-peer=%v", u.name, known)
+						if rpc == "gossip.Discover" {
+							alive = guarded(rpc, shape, func() error { _, e := s.gsp.Server().Discover(ctx, m); return e })
+						} else {
+							alive = guarded(rpc, shape, func() error { _, e := s.gsp.Server().Announce(ctx, m); return e })
+						}
+					}
+				}
+			}
+			if !alive {
+				return nil
 			}
 		}
 		// ---- a real vertex through the wire mapping still works (sanity: the sweep is not all-error)
